@@ -403,6 +403,7 @@ fn macsec_hdr_check(h: &MacsecHeaderSlice) -> &'static str {
         && h.header_len() == h.slice().len()
         && h.sci_present() == h.sci().is_some()
         && h.is_unmodified() == h.next_ether_type().is_some()
+        && h.expected_payload_len() == t.expected_payload_len()
         && h.tci_an_raw() == h.slice()[0]
         && h.encrypted() == (h.slice()[0] & 0b1000 != 0)
         && h.userdata_changed() == (h.slice()[0] & 0b100 != 0)
@@ -898,6 +899,7 @@ fn vlan_helper_bad(vl: &Option<VlanSlice>, vlans: &[&SingleVlanSlice]) -> bool {
             vlans.len() != 1
                 || s != vlans[0]
                 || vl.as_ref().unwrap().to_header() != VlanHeader::Single(vlans[0].to_header())
+                || vl.as_ref().unwrap().to_header().next_header() != vlans[0].ether_type()
                 || !eth_pl_eq(&vl.as_ref().unwrap().payload(), &vlans[0].payload())
         }
         Some(VlanSlice::DoubleVlan(d)) => {
@@ -906,6 +908,7 @@ fn vlan_helper_bad(vl: &Option<VlanSlice>, vlans: &[&SingleVlanSlice]) -> bool {
                 || &d.inner != vlans[1]
                 || d.to_header() != (DoubleVlanHeader { outer: vlans[0].to_header(), inner: vlans[1].to_header() })
                 || vl.as_ref().unwrap().to_header() != VlanHeader::Double(DoubleVlanHeader { outer: vlans[0].to_header(), inner: vlans[1].to_header() })
+                || vl.as_ref().unwrap().to_header().next_header() != vlans[1].ether_type()
                 || !eth_pl_eq(&d.payload(), &vlans[1].payload())
                 || !eth_pl_eq(&vl.as_ref().unwrap().payload(), &vlans[1].payload())
                 || d.payload_slice().as_ptr() != vlans[1].payload_slice().as_ptr()
@@ -944,9 +947,86 @@ fn helper_mismatch_sliced_inner(p: &SlicedPacket) -> bool {
     ids != got || vl != ids.len().min(2) || frag != p.is_ip_payload_fragmented() || !pet_ok
 }
 
+/// `ether_payload()` / `ip_payload()` of `SlicedPacket`: the payload of the last link extension (or of the link
+/// layer), named as limited by the MACsec short length when one of the MACsec headers in front carries one
+fn strict_payload_helpers_bad(p: &SlicedPacket) -> bool {
+    let any_sl = p.link_exts.iter().any(|e| matches!(e, LinkExtSlice::Macsec(m) if m.header.short_len() != MacsecShortLen::ZERO));
+    let want: Option<EtherPayloadSlice> = match p.link_exts.last() {
+        Some(LinkExtSlice::Vlan(v)) => Some(v.payload()),
+        Some(LinkExtSlice::Macsec(m)) => match &m.payload {
+            MacsecPayloadSlice::Unmodified(e) => Some(e.clone()),
+            MacsecPayloadSlice::Modified(_) => None,
+        },
+        // (`SlicedPacket::ether_payload` hands on an SLL payload only when the protocol field is an ether type;
+        // `LinkSlice::ether_payload` and `LaxSlicedPacket::ether_payload` also for the Linux non-standard numbers)
+        None => match p.link.as_ref() {
+            Some(LinkSlice::LinuxSll(x)) if !matches!(x.protocol_type(), LinuxSllProtocolType::EtherType(_)) => None,
+            Some(LinkSlice::LinuxSllPayload(x)) if !matches!(x.protocol_type, LinuxSllProtocolType::EtherType(_)) => None,
+            Some(l) => l.ether_payload(),
+            None => None,
+        },
+    };
+    let got = p.ether_payload();
+    let ep_bad = match (&got, &want) {
+        (None, None) => false,
+        (Some(g), Some(w)) => {
+            g.ether_type != w.ether_type
+                || g.payload.as_ptr() != w.payload.as_ptr()
+                || g.payload.len() != w.payload.len()
+                || (!p.link_exts.is_empty() && g.len_source != (if any_sl { LenSource::MacsecShortLength } else { LenSource::Slice }))
+                || (p.link_exts.is_empty() && g.len_source != w.len_source)
+        }
+        _ => true,
+    };
+    let ip_want = match &p.net {
+        Some(NetSlice::Ipv4(v)) => Some(v.payload().clone()),
+        Some(NetSlice::Ipv6(v)) => Some(v.payload().clone()),
+        _ => None,
+    };
+    ep_bad || p.ip_payload().cloned() != ip_want
+}
+
+fn lax_payload_helpers_bad(p: &LaxSlicedPacket) -> bool {
+    fn same(g: &LaxEtherPayloadSlice, et: EtherType, src: LenSource, inc: bool, pl: &[u8]) -> bool {
+        g.ether_type == et && g.len_source == src && g.incomplete == inc && g.payload.as_ptr() == pl.as_ptr() && g.payload.len() == pl.len()
+    }
+    let got = p.ether_payload();
+    let ep_bad = match p.link_exts.last() {
+        Some(LaxLinkExtSlice::Vlan(v)) => {
+            // limited by whatever limited the last MACsec payload in front (if anything did)
+            let mut src = LenSource::Slice;
+            for e in p.link_exts.iter() {
+                if let LaxLinkExtSlice::Macsec(m) = e {
+                    if let LaxMacsecPayloadSlice::Unmodified(x) = &m.payload {
+                        if x.len_source != LenSource::Slice {
+                            src = x.len_source;
+                        }
+                    }
+                }
+            }
+            !got.as_ref().map(|g| same(g, v.ether_type(), src, false, v.payload_slice())).unwrap_or(false)
+        }
+        Some(LaxLinkExtSlice::Macsec(m)) => match &m.payload {
+            LaxMacsecPayloadSlice::Unmodified(x) => got.as_ref() != Some(x),
+            LaxMacsecPayloadSlice::Modified { .. } => got.is_some(),
+        },
+        None => match p.link.as_ref().map(|l| l.ether_payload()) {
+            None | Some(None) => got.is_some(),
+            Some(Some(w)) => !got.as_ref().map(|g| same(g, w.ether_type, LenSource::Slice, false, w.payload)).unwrap_or(false),
+        },
+    };
+    let ip_want = match &p.net {
+        Some(LaxNetSlice::Ipv4(v)) => Some(v.payload().clone()),
+        Some(LaxNetSlice::Ipv6(v)) => Some(v.payload().clone()),
+        _ => None,
+    };
+    ep_bad || p.ip_payload().cloned() != ip_want
+}
+
 fn helper_mismatch_sliced(p: &SlicedPacket) -> bool {
     let vlans: Vec<&SingleVlanSlice> = p.link_exts.iter().filter_map(|e| if let LinkExtSlice::Vlan(v) = e { Some(v) } else { None }).collect();
     helper_mismatch_sliced_inner(p)
+        || strict_payload_helpers_bad(p)
         || vlan_helper_bad(&p.vlan(), &vlans)
         || p.link.as_ref().map(link_slice_helpers_bad).unwrap_or(false)
         || p.link_exts.iter().any(link_ext_helpers_bad)
@@ -986,6 +1066,7 @@ fn lax_sliced(base: &[u8], p: &LaxSlicedPacket) -> String {
     let mism = ids != got
         || vl != ids.len().min(2)
         || vlan_helper_bad(&p.vlan(), &vlans)
+        || lax_payload_helpers_bad(p)
         || p.link.as_ref().map(link_slice_helpers_bad).unwrap_or(false)
         || p.link_exts.iter().any(lax_link_ext_helpers_bad)
         || p.net.as_ref().map(lax_net_slice_helpers_bad).unwrap_or(false);
